@@ -2041,6 +2041,32 @@ def forget_map_operation(c, a, st, v):
     else:
         c.ob("ENS", "forget removes a hyperedge only if it is variable-labelled",
              "hyperedge removed ⇒ the path established a == HasVar::var()", is_var, st)
+        # ... and only if its incident nodes all carry one label: the path decided `all equal` over the source AND the
+        # target labels (or, written out for short lists, compared a source label with a target label)
+        ns0, nt0 = t_len(s_), t_len(t_)
+        need = [show_term(x) for x, n in ((s_, ns0), (t_, nt0)) if not st.eq(n, 0)]
+        uniform = len(need) == 0 or (len(need) == 1 and (st.eq(ns0 + nt0, 1)))
+        pieces = [k[3] for (k, truth) in st.unk if truth and isinstance(k, tuple) and len(k) == 4 and k[0] == "all"]
+        if len(pieces) > 1:
+            # the comparison split over several lists (the rest of the sources, then the targets, ...)
+            rest = lax_model.mk_slice(st, mk_concat([s_, t_]), Poly.const(1), ns0 + nt0)
+            if terms_equal(st, mk_concat(pieces), rest) or terms_equal(st, mk_concat(list(reversed(pieces))), rest):
+                uniform = True
+        for (k, truth) in st.unk:
+            if not truth or not isinstance(k, tuple) or not k:
+                continue
+            if k[0] == "all":
+                # `all` over the concatenation of both lists after its first element (compared with that element)
+                rest = lax_model.mk_slice(st, mk_concat([s_, t_]), Poly.const(1), ns0 + nt0)
+                if str(k[1]) in (show_term(rest), show_term(normalise(st, rest))) or \
+                        (len(need) == 2 and all(nm in str(k[1]) for nm in need)):
+                    uniform = True
+            if k[0] == "eq" and len(k) == 3 and all(isinstance(x, tuple) and len(x) >= 2 and x[0] in ("get", "elem") for x in k[1:]) \
+                    and {k[1][1], k[2][1]} == {s_, t_} and st.eq(ns0, 1) and st.eq(nt0, 1):
+                uniform = True
+        c.ob("ENS", "forget removes a hyperedge only if all its incident labels are equal",
+             "hyperedge removed ⇒ the path established that the source and target labels are all equal "
+             f"(over {', '.join(need) or 'nothing'})", uniform, st)
         # ... and replaces it by ONE merged node carrying every source and target position (nothing at all for 0 → 0)
         ns, nt = t_len(s_), t_len(t_)
         nodes = h.f["nodes"].t
